@@ -233,15 +233,20 @@ func clipN(s string, n int) string {
 
 // ------------------------------------------------------------------------------------------------ burst-client
 
-type clientOp struct{ kind, op string } // kind: simple / d2 (a call through that client), built (build, then send, through the simple one)
+type clientOp struct{ kind, op string } // kind: a client kind (a call through that client), built / built-shared (build, then send)
 
 func (o clientOp) name() string { return o.kind + ":" + o.op }
 
 func newClients(inst *srvInst, d *d2Inst) map[string]*clientFns {
-	return map[string]*clientFns{
-		"simple": inst.client(handlerTransport{inst.handler}, nil, 200),
-		"d2":     inst.client(handlerTransport{inst.handler}, d.resolver, 200),
+	out := map[string]*clientFns{}
+	for _, kind := range clientKinds {
+		var resolver interface{}
+		if kind == "d2" {
+			resolver = d.resolver
+		}
+		out[kind] = inst.client(handlerTransport{inst.handler}, resolver, 200, newClientCfg(kind))
 	}
+	return out
 }
 
 func announce(d *d2Inst, node string, hosts map[string]float64) {
@@ -262,8 +267,10 @@ func runBurstClient(cc childCfg, mod srvModule, dm d2Module) childOut {
 			}
 		}
 	}
-	for _, op := range buildOps {
-		all = append(all, clientOp{"built", op})
+	for _, bk := range builtKindNames {
+		for _, op := range buildOps {
+			all = append(all, clientOp{bk, op})
+		}
 	}
 	describe := func(a burstAnswer) string {
 		return "client operation " + a.name + " (srv_*.go: call / buildReq) with {id} = " + a.id
@@ -274,11 +281,11 @@ func runBurstClient(cc childCfg, mod srvModule, dm d2Module) childOut {
 		announce(d, "n1", map[string]float64{"http://h1.test:80/": 1, "http://h2.test:80/": 2})
 		clients := newClients(inst, d) // one restli.Client (http.Client, resolver) per kind, shared by all goroutines of the round
 		do := func(o clientOp, id string) burstAnswer {
-			if o.kind == "built" {
+			if ck, ok := builtKinds[o.kind]; ok {
 				var req *http.Request
-				req, e := buildSend(clients["simple"], o.op, id)
+				req, e := buildSend(clients[ck], o.op, id)
 				if req != nil {
-					e = clients["simple"].send(req)
+					e = clients[ck].send(req)
 				}
 				return burstAnswer{o.name(), id, canon(e, id)}
 			}
@@ -378,7 +385,8 @@ func runExpect(cc childCfg, mod srvModule, dm d2Module) childOut {
 	}
 	d := dm.new("items", "clusterA", []string{"https", "http"})
 	announce(d, "n1", map[string]float64{"http://h1.test:80/": 1, "http://h2.test:80/": 2})
-	for k, v := range serialClient(newClients(inst, d), &out, "expect:"+mod.name) {
+	// a brand-new client (restli.Client, http.Client, resolver, header configuration) for every single request
+	for k, v := range serialClient(func() map[string]*clientFns { return newClients(inst, d) }, &out, "expect:"+mod.name) {
 		out.Expect["client:"+k] = v
 	}
 	out.Ops = 2 * len(out.Expect)
